@@ -61,7 +61,9 @@ ResolveLinks(t, pkgs) ==
        IN ResolveLinks(InsertAfter([t EXCEPT ![i].a = newa], SubEnd(t, i), adds), pkgs)
 
 \* a declared tree with its child table (computed once per description)
-Decl(R) == [t |-> R, k |-> [i \in 1..Len(R) |-> Kids(R, i)], e |-> [i \in 1..Len(R) |-> SubEnd(R, i)]]
+\* x: the handler's additional choices (setAdditionalChoices: "bypass the choice evaluation"), empty by default
+Decl(R) == [t |-> R, k |-> [i \in 1..Len(R) |-> Kids(R, i)], e |-> [i \in 1..Len(R) |-> SubEnd(R, i)], x |-> {}]
+WithExtra(D, S) == [D EXCEPT !.x = S]
 DLastNamed(D, m, name) == LET s == {j \in {D.k[m][x] : x \in 1..Len(D.k[m])} : D.t[j].n = name}
                           IN IF s = {} THEN 0 ELSE MaxOf(s)
 
@@ -131,7 +133,7 @@ Inst(D, U, r, u) ==
   IF kids = <<>>
   THEN LET val == IF u # 0 THEN U[u].v ELSE IF nd.a.hd /\ kw = "" THEN nd.a.df ELSE nd.v
            kind == IF u # 0 THEN "u" ELSE IF nd.a.hd THEN "d" ELSE "t"
-           cls == IF copies # <<>> \/ req # {} THEN "valid" ELSE ValueClass(nd.a, val)
+           cls == IF copies # <<>> \/ req # {} \/ Trim(val) \in D.x THEN "valid" ELSE ValueClass(nd.a, val)
            ce == {ErrRec("choice", nd.n, r)}
        IN [nodes |-> <<mk(val, kind)>> \o copies,
            errs |-> req \cup (IF cls = "invalid" THEN ce ELSE {}),
